@@ -73,19 +73,12 @@ def run(ck):
             ok = bool(cls) and gc.dominated(gc.site_of(dest[0]), set(gc.sites_of_nodes(cls)))
             ck.ob("C10-O2", sitestr(cf, dest[0]), ok, "the original is removed only after the compressed copy was closed" if ok else "the original is removed before the compressed copy is closed", key="compressFile|remove-before-close")
     # ---- O3
-    reach = S.entry_reach()
     n_sites = 0
-    for fid in sorted(reach):
-        f = F.fns.get(fid)
-        if f is None:
-            continue
-        for n in sorted(f.all_nodes(), key=lambda n: n["id"]):
-            k = destructive_kind(n)
-            if k:
-                n_sites += 1
-                ok, why = allowed_destructive(S, f, n, k)
-                ck.ob("C10-O3", sitestr(f, n), ok, "%s: %s" % (describe(n)[:60], why) if ok else "unsanctioned destructive call %s: %s" % (describe(n)[:80], why),
-                      key="destructive|%s|%s|%s" % (strip_tmpl(f.name).split("::")[-1], k, why if not ok else "ok"))
+    for f, n, k in S.destructive_sites():
+        n_sites += 1
+        ok, why = allowed_destructive(S, f, n, k)
+        ck.ob("C10-O3", sitestr(f, n), ok, "%s: %s" % (describe(n)[:60], why) if ok else "unsanctioned destructive call %s: %s" % (describe(n)[:80], why),
+              key="destructive|%s|%s|%s" % (strip_tmpl(f.name).split("::")[-1], k, why if not ok else "ok"))
     ck.require(n_sites >= 4, "fewer destructive call sites than confirmed by hand (%d < 4)" % n_sites)
     fi = S.m["findNextIndexForDate"]
     from rules.c06 import regex_patterns
